@@ -56,12 +56,17 @@ pub struct FaultPlan {
     pub kind: io::ErrorKind,
 }
 
+/// Called for every emitted event with its 1-based ordinal since the observer was installed.
+pub type EventObserver = Box<dyn FnMut(usize, &IoEvent)>;
+
 #[derive(Default)]
 struct State {
     sink: Option<Vec<IoEvent>>,
     plan: Option<FaultPlan>,
     counts: [usize; 4],
     struck: usize,
+    observer: Option<EventObserver>,
+    observed: usize,
 }
 
 thread_local! {
@@ -97,16 +102,36 @@ pub fn stop_recording() {
     STATE.with(|st| st.borrow_mut().sink = None);
 }
 
+/// Install (or remove) an observer that sees every event of this thread right after the effect it
+/// reports happened (used to stop the process at a chosen event). The observer must not call
+/// back into this module.
+pub fn set_event_observer(observer: Option<EventObserver>) {
+    STATE.with(|st| {
+        let mut st = st.borrow_mut();
+        st.observer = observer;
+        st.observed = 0;
+    });
+}
+
 pub(crate) fn emit(event: IoEvent) {
     STATE.with(|st| {
-        if let Some(sink) = st.borrow_mut().sink.as_mut() {
+        let mut st = st.borrow_mut();
+        let st = &mut *st;
+        if let Some(observer) = st.observer.as_mut() {
+            st.observed += 1;
+            observer(st.observed, &event);
+        }
+        if let Some(sink) = st.sink.as_mut() {
             sink.push(event);
         }
     });
 }
 
 pub(crate) fn recording() -> bool {
-    STATE.with(|st| st.borrow().sink.is_some())
+    STATE.with(|st| {
+        let st = st.borrow();
+        st.sink.is_some() || st.observer.is_some()
+    })
 }
 
 /// Install a fault plan (or remove it) and reset the per-site call counters.
